@@ -712,6 +712,7 @@ func (r *runner) runAlike() {
 			t.Close()
 		}
 	}
+	r.overlap()
 	r.s.SetExtra("alike", map[string]any{"well_formed_requests": total, "compared_on_common_methods": compared})
 }
 
@@ -1053,6 +1054,10 @@ func (r *runner) runSurvive(only string) {
 			continue
 		}
 		kk := k
+		var exp *expiryProbe
+		if k == "st-json" {
+			exp = newExpiryProbe() // its sessions grow old while the batch below runs
+		}
 		r.surviveOn(ts[0], r.surviveCases(reg), func() (Target, error) {
 			t2, err := r.targets(reg, kk)
 			if err != nil {
@@ -1061,7 +1066,11 @@ func (r *runner) runSurvive(only string) {
 			return t2[0], nil
 		})
 		ts[0].Close()
+		if exp != nil {
+			exp.run(r)
+		}
 		r.manyInFlight(k)
+		r.peerLeavesMidCall(k)
 	}
 }
 
